@@ -566,8 +566,12 @@ def check_variant_stats(mon, v, d, al, mi, UA, api, w, rng):
     else:
         got = {k: int(x) for k, x in c.items()}
         if got != dict(exp):
-            key = "variant/counts-duplicate-user-alleles" if dup else f"{api}/counts"
-            mon.bad(key, f"{w}: counts()={got} expected {dict(exp)} (genotypes {d['g'].tolist()}, alleles {alleles})")
+            if dup:
+                # EITHER: with a user allele tuple containing duplicates the dict returned by counts() keeps only the last
+                # duplicate's count. The property statement does not speak about counts(), so this is recorded, not gated.
+                ctx.count("either:counts-with-duplicate-user-alleles")
+            else:
+                mon.bad(f"{api}/counts", f"{w}: counts()={got} expected {dict(exp)} (genotypes {d['g'].tolist()}, alleles {alleles})")
     # ---- frequencies
     rm = rng.choice([None, False, True])
     ok, f = attempt(lambda: v.frequencies() if rm is None else v.frequencies(remove_missing=rm))
@@ -584,8 +588,10 @@ def check_variant_stats(mon, v, d, al, mi, UA, api, w, rng):
         same = set(f) == set(expf) and all(
             (math.isnan(expf[a]) and math.isnan(float(f[a]))) or abs(float(f[a]) - expf[a]) <= 1e-12 for a in expf)
         if not same:
-            key = "variant/counts-duplicate-user-alleles" if dup else f"{api}/frequencies"
-            mon.bad(key, f"{w}: frequencies(remove_missing={rm})={dict(f)} expected {expf}")
+            if dup:
+                ctx.count("either:counts-with-duplicate-user-alleles")
+            else:
+                mon.bad(f"{api}/frequencies", f"{w}: frequencies(remove_missing={rm})={dict(f)} expected {expf}")
     # ---- states
     mds = rng.choice([None, None, "N", "?", "missing", "", "A", "T", 5])
     ok, st = attempt(lambda: v.states() if mds is None else v.states(missing_data_string=mds))
